@@ -25,6 +25,10 @@ type Truth1 struct {
 	PresentVolumes []int // volume numbers present and byte-identical to what Create wrote
 	DamagedVolumes []int // present but different
 	IndexIntact    bool
+	// BeyondTwoDigits: intact volumes numbered 100 and up (Create writes
+	// them when asked for more than 99 volumes; the property speaks of
+	// volume counts up to 99, so a reader may use them or leave them alone)
+	BeyondTwoDigits []int
 }
 
 // VolumePath returns the path of parity volume v (1-based).
@@ -45,10 +49,16 @@ func (w *World) TruthPar1() Truth1 {
 	}
 	idx, ok := w.Disk.Get(w.Index)
 	t.IndexIntact = ok && string(idx) == string(w.Created[w.Index])
-	for v := 1; v <= 99; v++ {
+	for v := 1; v <= 255; v++ {
 		p := w.VolumePath(v)
 		b, ok := w.Disk.Get(p)
 		if !ok {
+			continue
+		}
+		if v > 99 {
+			if snap, has := w.Created[p]; has && len(b) >= 0x20 && len(snap) >= 0x20 && string(snap[0x20:]) == string(b[0x20:]) {
+				t.BeyondTwoDigits = append(t.BeyondTwoDigits, v)
+			}
 			continue
 		}
 		// a volume is intact when everything the format protects (all
@@ -85,14 +95,14 @@ func (r *Run) oracleVerify1(w *World, res *OpResult, t Truth1, strict bool) {
 	if c.UsableDataFileCount > t.UsableData || (strict && (c.UsableDataFileCount != t.UsableData || c.UnusableDataFileCount != t.UnusableData)) {
 		r.Violate("par1-count-mismatch", "Verify counts %d usable / %d unusable data files; truth %d / %d", c.UsableDataFileCount, c.UnusableDataFileCount, t.UsableData, t.UnusableData)
 	}
-	if c.UsableParityFileCount > len(t.PresentVolumes) || (strict && c.UsableParityFileCount != len(t.PresentVolumes)) {
-		r.Violate("par1-count-mismatch", "Verify counts %d usable parity volumes; %d are present and intact %v", c.UsableParityFileCount, len(t.PresentVolumes), t.PresentVolumes)
+	if c.UsableParityFileCount > len(t.PresentVolumes)+len(t.BeyondTwoDigits) || (strict && c.UsableParityFileCount < len(t.PresentVolumes)) {
+		r.Violate("par1-count-mismatch", "Verify counts %d usable parity volumes; %d are present and intact %v (and %d numbered 100 and up)", c.UsableParityFileCount, len(t.PresentVolumes), t.PresentVolumes, len(t.BeyondTwoDigits))
 	}
 	if strict {
 		if c.RepairNeeded() != (t.UnusableData > 0) {
 			r.Violate("par1-count-mismatch", "RepairNeeded()=%v with %d unusable data files", c.RepairNeeded(), t.UnusableData)
 		}
-		if c.RepairPossible() != (t.UnusableData <= len(t.PresentVolumes)) {
+		if len(t.BeyondTwoDigits) == 0 && c.RepairPossible() != (t.UnusableData <= len(t.PresentVolumes)) {
 			r.Violate("par1-count-mismatch", "RepairPossible()=%v with %d unusable data files and %d usable volumes", c.RepairPossible(), t.UnusableData, len(t.PresentVolumes))
 		}
 	}
